@@ -68,7 +68,7 @@ func updateTimeBoundsForRow(lo *storage.LookupOptions, cls *semantic.GraphClause
 	lo = updateTimeBounds(lo, cls)
 	if cls.PLowerBoundAlias != "" {
 		v, ok := r[cls.PLowerBoundAlias]
-		if ok && v.T == nil {
+		if !ok || v == nil || v.T == nil {
 			return nil, fmt.Errorf("invalid time anchor value %v for bound %s", v, cls.PLowerBoundAlias)
 		}
 		if lo.LowerAnchor == nil || (lo.LowerAnchor != nil && v.T.After(*lo.LowerAnchor)) {
@@ -77,7 +77,7 @@ func updateTimeBoundsForRow(lo *storage.LookupOptions, cls *semantic.GraphClause
 	}
 	if cls.PUpperBoundAlias != "" {
 		v, ok := r[cls.PUpperBoundAlias]
-		if ok && v.T == nil {
+		if !ok || v == nil || v.T == nil {
 			return nil, fmt.Errorf("invalid time anchor value %v for bound %s", v, cls.PUpperBoundAlias)
 		}
 		if lo.UpperAnchor == nil || (lo.UpperAnchor != nil && v.T.After(*lo.UpperAnchor)) {
